@@ -655,6 +655,7 @@ func runC02(c *Ctx) {
 	}
 	listItemCases(c, nli)
 	leafBlockCases(c, 0)
+	delimCases(c, nli)
 	var curS string
 	c.watchdog(120*time.Second, "spec-rewrite-hang", func() interface{} { return map[string]string{"markdown": curS} }, func() { specRewrites(c, mds[0], &curS) })
 }
